@@ -31,6 +31,12 @@ def check(repo, col, tier):
     col.rule("R-C16-forms", "interpolation / centre / clipping / length conventions", 8)
     _ids_to_rows(repo, col, "R-C16-forms")
     _columns(repo, col, "R-C16-forms")
+    # the parents the reader returns become the cell's tree: branch k hangs on comb_parents[k], and the children of one parent meet at ONE
+    # branch point whatever the order of the sections in the file (shared with C12 / C01)
+    from . import c12 as _c12, c01_solver as _c01s
+    col.rule("R-C16-tree", "the cell built from the file has the file's connectivity (branch edges, branch points, levels)", 10)
+    _c12._cell_branch_edges(repo, col, "R-C16-tree")
+    _c01s._levels(repo, col, "R-C16-tree")
     col.rule("R-C16-switches", "optional conventions of the reader are off by default", 3)
     _switches(repo, col, "R-C16-switches")
     col.rule("R-C16-fresh", "every import reads the file: no step of the reader is memoised", 10)
@@ -806,6 +812,37 @@ def _pathlengths(repo, col):
                     stack += [x.args[1], x.args[2]]
                 else:
                     vals.append((x, s_))
+    soma_flag = "is_single_point_soma"
+    if not vals:
+        # the per-branch computation extracted into a helper: `[helper(coords[rows], flag) for b in branches]` -- the helper is judged, with
+        # the caller's flag mapped to the parameter that receives it
+        rr = ex.merged_return() if len(ex.returns) != 1 else ex.returns[0]
+        hc = T.find(rr, lambda x: x.op == "call" and repo.resolve_name(repo.mods[fi.file], x.name) is not None) if rr is not None else None
+        hf = repo.resolve_name(repo.mods[fi.file], hc.name) if hc is not None else None
+        from sa.core import FuncInfo as _FI
+        if isinstance(hf, _FI) and T.find(rr, lambda x: x.op == "comp") is not None:
+            for i_, a_ in enumerate(hc.args):
+                if a_.op == "param" and a_.name == "is_single_point_soma" and i_ < len(hf.params):
+                    soma_flag = hf.params[i_]
+            for k_, a_ in hc.kw.items():
+                if a_.op == "param" and a_.name == "is_single_point_soma":
+                    soma_flag = k_
+            fi = hf
+            ex = idx.expander(repo, fi)
+
+            class _S:
+                pass
+            for r_ in ex.returns:
+                v = idx.norm(repo, fi, r_)
+                stack = [v]
+                while stack:
+                    x = stack.pop()
+                    if x.op == "ifexp":
+                        stack += [x.args[1], x.args[2]]
+                    else:
+                        s0 = _S()
+                        s0.node = r_.node or fi.node
+                        vals.append((x, s0))
     if not vals:
         raise AnalysisError("_compute_pathlengths: no appended path lengths found")
 
@@ -923,7 +960,7 @@ def _pathlengths(repo, col):
             g0 = g0.args[0]
         if g0.op == "cmp" and any((a_.op in ("call", "mcall") and a_.name == "len") for a_ in g0.args):
             continue   # the one-point case distinction (also as the negation of an early `continue`)
-        if g.op == "param" and g.name == "is_single_point_soma":
+        if g.op == "param" and g.name == soma_flag:
             k = "single_point_soma"
         elif g.op == "cmp" and len(g.args) == 2:
             def side(t):
